@@ -283,6 +283,15 @@ def _geom_parts(geom):
     raise TypeError(type(geom))
 
 
+def _am_reported(g):
+    from ..core import WrongReturn
+
+    v = g.antimeridian_face_indices
+    if v is None:
+        raise WrongReturn("Grid.antimeridian_face_indices", v)
+    return sorted(int(i) for i in np.atleast_1d(v))
+
+
 def _run_am_set(case, ctx):
     """Unrestricted meshes: the set of antimeridian faces and the number of elements 'exclude' leaves, for a drawn
     sequence of observations (the property itself, frames, polygon and line collections, with and without a projection)."""
@@ -301,7 +310,7 @@ def _run_am_set(case, ctx):
         site = f"am-set:{what}:{pdesc[0]}:{'first' if k == 0 else 'later'}"
         if what == "property":
             ctx.ev("antimeridian_set")
-            got = sorted(int(i) for i in np.atleast_1d(g.antimeridian_face_indices))
+            got = _am_reported(g)
             if got != am0:
                 fails.append(Failure("antimeridian_set", "Grid.antimeridian_face_indices", "wrong-set", f"{site}: {got}, expected {am0} (faces {[mesh['faces'][i] for i in sorted(set(got) ^ set(am0))]} with node longitudes {[[mesh['nodes'][j][0] for j in mesh['faces'][i]] for i in sorted(set(got) ^ set(am0))]})"))
                 return fails
@@ -319,7 +328,7 @@ def _run_am_set(case, ctx):
             fails.append(Failure("exclude_drops_exactly", site, "count", f"{n} elements left of {n_face} faces, {len(am)} of which have an edge spanning >= 180 degrees about longitude {lon0}: {am}"))
             return fails
     ctx.ev("antimeridian_set")
-    got = sorted(int(i) for i in np.atleast_1d(g.antimeridian_face_indices))
+    got = _am_reported(g)
     if got != am0:
         fails.append(Failure("antimeridian_set", "Grid.antimeridian_face_indices", "wrong-set", f"after {[o[0] + ':' + o[2][0] for o in case['obs']]}: {got}, expected {am0}"))
     return fails
@@ -571,7 +580,7 @@ def run_case(case, ctx):
         if si > 0 or step["var"] == 0:
             ctx.ev("antimeridian_set")
             am0, _ = _am_faces(mesh, 0.0)
-            got_am = sorted(int(i) for i in np.atleast_1d(g.antimeridian_face_indices))
+            got_am = _am_reported(g)
             if got_am != am0:
                 fails.append(Failure("antimeridian_set", "Grid.antimeridian_face_indices", "wrong-set", f"before step {si} (after {[s_['call'] + ':' + s_['proj'][0] for s_ in case['steps'][:si]]}): {got_am} expected {am0}"))
                 return fails
@@ -582,6 +591,10 @@ def run_case(case, ctx):
             else:
                 var = step["var"]
                 obj = need(das[var].to_geodataframe(engine=step["engine"], **kw), "columns", "UxDataArray.to_geodataframe")
+            ctx.ev("engine_respected")
+            if type(obj).__module__.split(".")[0] != step["engine"]:
+                fails.append(Failure("depends_only_on_args", site, "engine", f"step {si}: engine={step['engine']!r} requested, the frame is a {type(obj).__module__}.{type(obj).__name__}"))
+                return fails
             cols = list(obj.columns)
             want_cols = ["geometry"] if var is None else ["geometry", f"v{var}"]
             if cols != want_cols:
@@ -648,7 +661,7 @@ def run_case(case, ctx):
             return fails
     ctx.ev("antimeridian_set")
     am0, _ = _am_faces(mesh, 0.0)
-    got_am = sorted(int(i) for i in np.atleast_1d(g.antimeridian_face_indices))
+    got_am = _am_reported(g)
     if got_am != am0:
         fails.append(Failure("antimeridian_set", "Grid.antimeridian_face_indices", "wrong-set", f"after the history {[s_['call'] + ':' + s_['proj'][0] for s_ in case['steps']]}: {got_am} expected {am0}"))
     return fails
